@@ -30,7 +30,7 @@ ID = "C10"
 LEVEL = "fault_enumeration"
 RULE = (
     "bases = the valid, cheap-default configurations of the C04 space (every q-th in enumeration order: round trips "
-    "quick q=36 / thorough q=4; fault bases: 2 (thorough 12) per list size, evenly spaced in enumeration order; "
+    "quick q=18 / thorough q=4; fault bases: 2 (thorough 12) per list size, evenly spaced in enumeration order; "
     "history bases: 1 (thorough 3) per size (quick: sizes 2 and 3 only) + 2 (thorough 5) extras) + 7 hand-written extras (string-typed numbers and comma strings, a '%' inside a string option, float / percent "
     "vary_rounds incl. '12.5%', a context-keyword scheme, truncate_error, an unregistered custom hasher object with "
     "category options).  Round-trip routes: dict, string, bytes, path, copy, update_empty, load_self, load_dict, "
@@ -711,13 +711,14 @@ def history_events(cfg):
     L = names_of(cfg)
     rs = [s for s in L if s in P.SCALE]
     absent = next(s for s in P.POOL if s not in L)
+    cheap = lambda names: [(f"{s}__max_rounds", P.SCALE[s]["b"]) for s in names if s in P.SCALE]  # noqa: E731 - keep new hashes cheap
     ev = [
         ("v:default", "update_kw", [("default", L[-1])]),
         ("v:deprecated_auto", "load_update_dict", [("deprecated", "auto")]),
         ("v:category", "load_update_string", [("staff__context__deprecated", [L[0]] if len(L) > 1 else [])]),
         ("v:vary", "update_dict", [("all__vary_rounds", "5%")]),
-        ("v:reload_reordered", "load_dict", [("schemes", list(reversed(L)))]),
-        ("v:first_scheme_only", "load_dict", [("schemes", [L[0]])]),
+        ("v:reload_reordered", "load_dict", [("schemes", list(reversed(L)))] + cheap(L)),
+        ("v:first_scheme_only", "load_dict", [("schemes", [L[0]])] + cheap(L[:1])),
         ("f:unknown_option", "update_kw", [("bogus_option", 1)]),
         ("f:default_absent", "load_dict", [("schemes", list(L)), ("default", absent)]),
         ("f:salt", "load_update_string", [(f"{L[0]}__salt", "abcd")]),
@@ -923,7 +924,7 @@ def _work(task):
 def run(ctx):
     seed = ctx.seed
     bases = cheap_valid_bases(ctx.quick, seed)
-    q = 36 if ctx.quick else 4
+    q = 18 if ctx.quick else 4
     rt = [(base_cls(sp), cfg) for sp, cfg in bases[::q]] + [(f"extra{i}", cfg) for i, cfg in enumerate(EXTRAS)]
     per = 2 if ctx.quick else 12
     hper = 1 if ctx.quick else 3
